@@ -308,3 +308,12 @@ def isinstance_test_pol(test, var: str = None):
   if r is None:
     return None
   return r[0], r[1], pos
+
+
+def mirror_forms(test) -> set:
+  """Source texts of a two-operand comparison in both operand orders (`a < b` and `b > a`); the plain text for anything else."""
+  flip = {ast.Lt: '>', ast.Gt: '<', ast.LtE: '>=', ast.GtE: '<=', ast.Eq: '==', ast.NotEq: '!='}
+  out = {src(test)}
+  if isinstance(test, ast.Compare) and len(test.ops) == 1 and type(test.ops[0]) in flip:
+    out.add('%s %s %s' % (src(test.comparators[0]), flip[type(test.ops[0])], src(test.left)))
+  return out
